@@ -212,13 +212,18 @@ def gen(rng, tier, classes, counts):
     letters = gate_letters(0, 0, 1)
     deep = tier == "thorough"
     # (a) every sequence of <= 2 gate setters on the I/O / its outputs, every class, three formatter / stream kinds;
-    #     of 3: the classes and kinds in rotation (quick) / every class and kind (thorough)
+    #     of 3: the classes and kinds in rotation (quick) / every class, the kinds in rotation (thorough)
     k = 0
     for word in words(letters, 3 if tier != "search" else 1):
-        if len(word) < 3 or deep:
+        if len(word) < 3:
             for (T, cansec) in classes:
                 for (fk, sa) in kinds3:
                     add("setters", T, fk, sa, setter_history(word, cansec))
+        elif deep:
+            for (T, cansec) in classes:
+                fk, sa = kinds3[k % 3]
+                add("setters", T, fk, sa, setter_history(word, cansec))
+            k += 1
         else:
             T, cansec = classes[k % len(classes)]
             fk, sa = kinds3[(k // len(classes)) % 3]
